@@ -549,6 +549,41 @@ def check_frozen_models(run, A, module_prefixes, rule='R-FROZEN'):
     return n
 
 
+def check_derived_fields(run, A, module_prefixes, rule='R-DERIVED'):
+    """The quantities a model caches at construction (`__post_init__`: Cholesky factor of the precision and its log-determinant for the Gaussians) are functions of the
+    parameters.  A cached quantity that is ALSO a constructor argument (a dataclass field without `init=False`) and whose assignment in `__post_init__` is conditional (skipped
+    when a value was passed in) can be set independently of the parameter it belongs to - by the constructor, `dataclasses.replace`, `from_dict(to_dict())`, `stack_parameters` -
+    and the density is then evaluated with a factor that is not the one of the stored covariance.  Reported: such a field, with the guard.  An unconditional recomputation of an
+    init field is silent (the passed value is overwritten), and so is a conditional store into an `init=False` field."""
+    derived = derived_state_classes(A)
+    if not derived:
+        raise AnalysisError('no model class with quantities cached at construction found (Gaussian.__post_init__ expected)')
+    n = 0
+    for cls in sorted(derived, key=lambda c: c.qual):
+        if not any(cls.mod.name == p.rstrip('.') or cls.mod.name.startswith(p) for p in module_prefixes):
+            continue
+        post = A.prog.method(cls, '__post_init__')
+        g = A.graphs.get(post)
+        fields = A.prog.all_fields(cls)
+        stores = {}
+        for e in g.events:
+            if e.kind == 'setattr' and e.data['base'].op == 'param' and e.data['base'].args[0] == 'self':
+                stores.setdefault(e.data['attr'], []).append(e)
+        for attr, evs in sorted(stores.items()):
+            if attr not in fields:
+                continue
+            n += 1
+            initable = fields[attr].get('init', True)
+            guarded = [e for e in evs if e.guards]
+            ok = not (initable and guarded and len(guarded) == len(evs))
+            run.check(ok, rule, f'{cls.name}.{attr}: a quantity cached at construction cannot be set apart from the parameters it is computed from', post.loc(getattr(evs[0].term, 'node', None)), '',
+                      f'`{attr}` is assigned in `__post_init__` only under a condition AND is a constructor argument (no `field(init=False)`): a value passed in - by the caller, by '
+                      f'`dataclasses.replace` (which copies every init field of the old object), by `from_dict` / `stack_parameters` - survives next to parameters it was not computed '
+                      f'from, and the density is evaluated with it', construct=f'{rule}::{cls.qual}::{attr}')
+    run.count('cached quantities that are dataclass fields', n)
+    return n
+
+
 def _dormant(A, fn, guards):
     """the guarded code runs only when a parameter is switched on that is off by default and that no call in the package switches on: [(param, default)] or None"""
     from .walk import const_val
